@@ -297,7 +297,7 @@ def has_rank_hierarchical_method(matrix_subspace, rank, hierarchy_k=1, zero_eps=
     tmp0 = opt_einsum.contract(TAlpha, [0,1,2], TBeta, [0,3,2], [0,1,3]).reshape(len(TAlpha),-1)
     matAAT = tmp0 @ tmp0.T.conj()
     # TODO return_info=True
-    ret = np.abs(np.diag(scipy.linalg.lu(matAAT)[2])).min() > zero_eps
+    ret = np.linalg.eigvalsh(matAAT)[0] > zero_eps #LU pivots are not rank-revealing
     if return_info:
         ret = ret, matAAT
 
@@ -347,5 +347,5 @@ def is_ABC_completely_entangled_subspace(np_list, hierarchy_k=1, zero_eps=1e-7):
     TAlpha = np.stack([x[0] for x in vec_list], axis=0)
     TBeta = np.stack([x[1] for x in vec_list], axis=0)
     TAlphaBeta = opt_einsum.contract(TAlpha, [0,1,2], TBeta, [0,3,2], TAlpha.conj(), [4,1,5], TBeta.conj(), [4,3,5], [0,4])
-    ret = np.abs(np.diag(scipy.linalg.lu(TAlphaBeta)[2])).min() > zero_eps
+    ret = np.linalg.eigvalsh(TAlphaBeta)[0] > zero_eps #LU pivots are not rank-revealing
     return ret
